@@ -62,6 +62,18 @@ Theorem C04_equal_iff : forall a b, wf_id a = true -> wf_id b = true ->
   exists r, equal a b = Ok r /\ (r = true <-> node_of a = node_of b).
 Proof. exact equal_iff_same_node. Qed.
 
+(* the ExpandedNodeID flags (NamespaceURI 0x80, ServerIndex 0x40) that the ExpandedNodeID API leaves in the NodeID's mask
+   change neither the text form nor Equal: an id taken out of an ExpandedNodeID is Equal to the plainly constructed one *)
+Theorem C04_equal_ignores_expanded_flags : forall a b fa fb, N.land fa 15 = 0 -> N.land fb 15 = 0 ->
+  raw_render (set_flags fa a) = raw_render a /\ raw_equal (set_flags fa a) (set_flags fb b) = raw_equal a b.
+Proof. intros a b fa fb Ha Hb. unfold raw_render, raw_equal. rewrite !view_set_flags by assumption. split; reflexivity. Qed.
+
+Example C04_flags_nonvacuous :
+  N.land 128 15 = 0 /\ N.land 64 15 = 0 /\ N.land 192 15 = 0 /\
+  raw_equal (set_flags 128 (R 3 2 0 [x78] None)) (R 3 2 0 [x78] None) = Ok true /\
+  raw_equal (set_flags 192 (R 5 2 0 [x78] None)) (set_flags 64 (R 5 2 0 [x78] None)) = Ok true.
+Proof. vm_compute. repeat split; reflexivity. Qed.
+
 (* "nsu=<uri>;<id>" resolves to the FIRST index of <uri> in the namespace table and continues with the identifier parser *)
 Theorem C04_nsu : forall tbl u i idpart, find_uri tbl u 0 = Some i -> no_semi u ->
   nth_error tbl i = Some u /\ (forall j, (j < i)%nat -> nth_error tbl j <> Some u) /\
@@ -108,6 +120,7 @@ Print Assumptions C04_refuted_guid_unparsable_string.
 Print Assumptions C04_refuted_guid_short_data4.
 Print Assumptions C04_refuted_before_fix_semicolon.
 Print Assumptions C04_equal_iff.
+Print Assumptions C04_equal_ignores_expanded_flags.
 Print Assumptions C04_nsu.
 Print Assumptions C04_nsu_string.
 Print Assumptions C04_registry_key_injective.
